@@ -464,7 +464,12 @@ fn c07(quick: bool) -> Vec<Harness> {
         cfg.errors = false;
         cfg.allow_cancel_lose = false;
         cfg.report = vec!["C07"];
-        v.push(ops_harness(&format!("{a:?}+ReadVec-sq1-full"), "C07", cfg, bounds(d(9, 13), d(2, 4), 4)));
+        v.push(ops_harness(&format!("{a:?}+ReadVec-sq1-full"), "C07", cfg.clone(), bounds(d(9, 13), d(2, 4), 4)));
+        if a == OpenFile {
+            // The synchronous close(2) is interrupted (EINTR): on Linux the descriptor is closed all the same.
+            cfg.close_eintr = true;
+            v.push(ops_harness(&format!("{a:?}+ReadVec-sq1-full-close-eintr"), "C07", cfg, bounds(d(9, 13), d(2, 4), 4)));
+        }
     }
     // The listening descriptor itself is direct: what it accepts must be direct too.
     for k in [Accept, AcceptNoAddr, MultishotAccept, ToFd] {
@@ -502,6 +507,11 @@ fn c07(quick: bool) -> Vec<Harness> {
         cfg.faults = false;
         cfg.report = vec!["C07"];
         v.push(ops_harness(&format!("{a:?}+{b:?}"), "C07", cfg, bounds(d(8, 13), d(2, 4), 4)));
+    }
+    {
+        let cases = crate::c07conv::cases();
+        let n = cases.len();
+        v.push(crate::casex::case_harness("signals-to-direct-descriptor", "C07", cases, crate::c07conv::run, json!({"engine": "casex over simk", "cases": n, "alphabet": "Signals::to_direct_descriptor: kernel answer {success, ENOMEM} x Ring::poll calls before the result is dropped {0,1,2} x queue size {1,4}, plus the conversion dropped in flight; the signalfd(2) descriptor is tracked through the close interposer"})));
     }
     v
 }
